@@ -31,6 +31,7 @@ GENERATORS = {
     "elf": fmtgen.gen_elf,
     "sadump": fmtgen.gen_sadump,
     "lkcd": fmtgen.gen_lkcd,
+    "s390": fmtgen.gen_s390,
 }
 
 
@@ -156,7 +157,8 @@ def check(run):
         compare(run, exe, [line], [{"key": "replay", "image": img, "pfns": []}], res)
         return
     plan = [("dd", 120 if quick else 4000), ("elf", 100 if quick else 6000),
-            ("sadump", 80 if quick else 3000), ("lkcd", 100 if quick else 6000)]
+            ("sadump", 80 if quick else 3000), ("lkcd", 100 if quick else 6000),
+            ("s390", 40 if quick else 1000)]
     only = os.environ.get("VERIF_C01_FORMATS")
     if only:
         plan = [p for p in plan if p[0] in only.split(",")]
